@@ -204,7 +204,7 @@ func c18Trace(t *testing.T, f c18Flow, store string, jwt bool) ([]string, *Resul
 func enumerateC18(t *testing.T, job *Job, out *WorkerOut, found map[string]*Found) map[string]interface{} {
 	states, shapes := map[string]bool{}, map[string]bool{}
 	spec := PropSpecs["C18"]
-	total, idx := 0, 0
+	total, idx, pairs := 0, 0, 0
 	cells := map[string]int{}
 	for _, f := range c18Flows() {
 		for _, store := range f.Stores {
@@ -240,13 +240,33 @@ func enumerateC18(t *testing.T, job *Job, out *WorkerOut, found map[string]*Foun
 					r := Execute(t, plan)
 					absorb(t, job, out, found, states, shapes, spec, plan, r)
 				}
+				// thorough tier: PAIRS of faults enumerated completely for the three transactional flows
+				if job.Tier == "thorough" && store != "plain" && !jwt && (f.Name == "code" || f.Name == "refresh" || f.Name == "device") {
+					pk := []string{"store-err", "store-serial", "lost-ack", "crash-before"}
+					for i := range names {
+						for j := i + 1; j < len(names); j++ {
+							for _, k1 := range pk {
+								for _, k2 := range append(append([]string{}, pk...), "rollback-fail", "commit-fail") {
+									idx++
+									if idx%job.Workers != job.Worker {
+										continue
+									}
+									pairs++
+									plan := c18Plan(f, store, jwt, &FaultSpec{Kind: k1, At: i, Call: names[i]}, &FaultSpec{Kind: k2, At: j, Call: names[j]})
+									r := Execute(t, plan)
+									absorb(t, job, out, found, states, shapes, spec, plan, r)
+								}
+							}
+						}
+					}
+				}
 			}
 		}
 	}
 	for s := range shapes {
 		out.Shapes = append(out.Shapes, "enum:"+s)
 	}
-	return map[string]interface{}{"evaluations": 0, "distinct": 0, "single_fault_cases_this_worker": total, "cells": cells, "exhaustive_single_faults": true}
+	return map[string]interface{}{"evaluations": 0, "distinct": 0, "single_fault_cases_this_worker": total, "fault_pair_cases_this_worker": pairs, "cells": cells, "exhaustive_single_faults": true}
 }
 
 func init() {
